@@ -51,8 +51,8 @@ def run(tier):
     specs = corpus.quick_specs()
     cases = corpus.generate(rep, specs)
     rep.exhaustive = True
-    keep = {"elementwise": 12, "update_at": 6, "get_at": 20, "id": 20, "preserve": 10, "argfind": 10, "reduce": 5, "dot": 2} if tier == "quick" else \
-           {"elementwise": 8, "update_at": 2, "get_at": 5, "id": 5, "preserve": 3, "argfind": 3, "reduce": 1, "dot": 1}
+    keep = {"elementwise": 12, "update_at": 16, "get_at": 20, "id": 20, "preserve": 10, "argfind": 10, "reduce": 5, "dot": 2} if tier == "quick" else \
+           {"elementwise": 8, "update_at": 5, "get_at": 5, "id": 5, "preserve": 3, "argfind": 3, "reduce": 1, "dot": 1}
     items = []
     for i, c in enumerate(cases):
         if i % keep.get(c["fam"], 1):
